@@ -12,7 +12,7 @@ class C10(Prop):
     trusted_base = ["create_stream_for_new_events / stream drop are single steps of the model (the harness runs them unscheduled); their interleaving with sends is C17's model",
                     "the same create/drop bookkeeping of the Uni channels is exercised through the Uni suites of C01/C04 (streams created before the run), not by histories",
                     "'all of them if it keeps polling until told to end' is checked at the end of each history by draining every live stream, not by cancel"]
-    assumptions = ["one thread issues the history (the property's quantifier is over histories)"]
+    assumptions = ["'between sends' suites: two threads create / remove listeners at the same time, no send overlaps them (overlapping sends are C17)", "one thread issues the history (the property's quantifier is over histories)"]
     def suites(self, tier, rng):
         n = 250 if tier == "quick" else 4000
         m = 80 if tier == "quick" else 2000
@@ -20,11 +20,34 @@ class C10(Prop):
         out = [Suite("arc_atomic", multigen.HEADER, [F8] + [multigen.gen_history(rng, "arc_atomic") for _ in range(n)])]
         for kind in KINDS:
             out.append(Suite(kind, "", [multigen.gen_history(rng, kind) for _ in range(m)], compare=False))
+        # listeners added and removed between sends by two threads at once (every shared access of the creations / removals scheduled)
+        out.append(Suite("between_sends_arc_atomic", multigen.HEADER, [multigen.gen_phased(rng, "arc_atomic") for _ in range(n // 2)]))
+        for kind in KINDS:
+            out.append(Suite("between_sends_" + kind, "", [multigen.gen_phased(rng, kind) for _ in range(m // 2)], compare=False))
+        out.append(Suite("recycled_id_race(oracle only)", multigen.HEADER, [multigen.gen_recycle_race(rng) for _ in range(n // 3)], compare=False))
         return out
-    def oracle(self, case, recs): return multigen.oracle_history(case, recs)
-    def nontrivial(self, case, recs): return multigen.nontrivial_history(case, recs)
+    def oracle(self, case, recs):
+        if case.meta.get("profile") == "churn":
+            # (the 'no payload storage stays occupied' probe belongs to C17's statement, not to this property: it is judged there)
+            # a send that overlaps a creation / removal (it can only happen when a creation outlasts its phase of the schedule) is C17's quantifier
+            return [(cls, text) for cls, text in multigen.oracle_churn(case, recs)
+                    if not text.startswith("after everything live was consumed") and not (cls or "").startswith("C17.")]
+        return multigen.oracle_history(case, recs)
+    def nontrivial(self, case, recs):
+        if case.meta.get("profile") == "churn":
+            iv = multigen.op_intervals(case, recs)
+            c = [(a, b) for t in case.meta["churn_tids"] for (op, a, b) in iv.get(t, []) if op[0] in ("creates", "drops")]
+            return any(not (b1 < a2 or b2 < a1) for j, (a1, b1) in enumerate(c) for (a2, b2) in c[j+1:])
+        return multigen.nontrivial_history(case, recs)
     def parse_replay(self, text):
         lines = [l for l in text.splitlines() if l.strip() and not l.startswith("#")]
         cases = [multigen.parse_case_line(l) for l in lines]
-        for c in cases: c.meta["profile"] = "history"
+        for c in cases:
+            progs = c.meta["progs"]
+            cts = [t for t, p in enumerate(progs) if any(n in ("creates", "createv", "drops") for n, a in p)]
+            if cts:
+                c.meta["recycle"] = any(n == "createv" for p in progs for n, a in p)
+                polled = {a[0] for t, p in enumerate(progs) if t not in cts for n, a in p if n in ("poll", "drive")}
+                c.meta.update({"profile": "churn", "stayers": sorted(polled), "churn_tids": cts})
+            else: c.meta["profile"] = "history"
         return Suite("replay", multigen.HEADER, cases, compare=all(c.meta["chan"] == "arc_atomic" for c in cases))
